@@ -129,7 +129,15 @@ func c08(c *Ctx) {
 			srvT := hasLit(p, call.NLits, true, func(t *core.Term) bool { _, y := fieldLoad(t, rd.isServer); return y })
 			switch {
 			case mask != nil:
-				if _, isK := fieldLoad(mask.Args[0], rd.readMaskKey); !isK {
+				_, isK := fieldLoad(mask.Args[0], rd.readMaskKey)
+				if !isK { // the value this very path stored into readMaskKey as a whole
+					for i := 0; i < ci; i++ {
+						if e := &p.Events[i]; e.Kind == core.EvStore && isFieldAddr(e.Addr, rd.readMaskKey) {
+							isK = e.Val == mask.Args[0]
+						}
+					}
+				}
+				if !isK {
 					okD, whyD = false, "control payload unmasked with something other than readMaskKey"
 				}
 				if z, isC := mask.Args[1].Int64(); !isC || z != 0 {
@@ -168,6 +176,9 @@ func c08(c *Ctx) {
 				if okShape {
 					f, isF := cs.Ref.(*ssa.Function)
 					okShape = isF && extName(f) == "(encoding/binary.bigEndian).Uint16"
+				}
+				if !okShape && bigEndianOf(p.X, code, payload, 2) {
+					okShape = true // the two bytes combined by hand
 				}
 				if !okShape {
 					okC, whyC = false, "close code is not big-endian Uint16(payload)"
